@@ -698,6 +698,41 @@ func ruleC10Assert(c *Ctx) {
 						continue
 					}
 				}
+				// (ii'') objectz: the assertion sits in a closure that is an entry of a dispatch table built by a
+				// function (a map literal keyed by node type) and the table is indexed by GetType() of the very
+				// value handed to the closure
+				if prm, isPrm := ta.X.(*ssa.Parameter); isPrm && fn.Parent() != nil && fn.Pkg.Pkg.Name() == "objectz" && objOK {
+					idx := -1
+					for i, q := range fn.Params {
+						if q == prm {
+							idx = i
+						}
+					}
+					if sites, okS := localTableSites(c, fn); okS && idx >= 0 {
+						all := true
+						for _, ts := range sites {
+							args := ts.call.Common().Args
+							if idx >= len(args) {
+								all = false
+								break
+							}
+							kc, isCall := ts.key.(*ssa.Call)
+							if !isCall || !kc.Call.IsInvoke() || kc.Call.Method.Name() != "GetType" || kc.Call.Value != args[idx] {
+								all = false
+								break
+							}
+							tys := objSymbolsTypes[ts.k]
+							if len(tys) != 1 || !types.Identical(types.NewPointer(tys[0]), originPtr(ta.AssertedType)) {
+								all = false
+								break
+							}
+						}
+						if all {
+							c.OK("C10.ASSERT", construct, pos, fmt.Sprintf("entry of a dispatch table that is indexed by GetType() of the asserted value at all %d call site(s); the store's symbols map is only ever filled with five symbol types and exactly this type answers the entry's key", len(sites)))
+							continue
+						}
+					}
+				}
 				// (iii) only-writer containers
 				if types.Identical(ta.X.Type(), llrbComparable) || strings.HasSuffix(ta.X.Type().String(), "llrb.Comparable") {
 					ins := inserted[fn.Pkg.Pkg.Name()]
@@ -1614,4 +1649,183 @@ func isThunkOf(v ssa.Value, fn *ssa.Function) bool {
 		}
 	}
 	return false
+}
+
+// localTableSite: a call through a dispatch table that a function builds and returns (map literal with
+// constant keys whose entries are closures).
+type localTableSite struct {
+	call ssa.CallInstruction
+	key  ssa.Value
+	k    int64
+}
+
+// localTableSites: cl is a closure that is only ever an entry (under constant keys) of a map built and
+// returned by its parent function; the result lists every call through a lookup in such a map.
+func localTableSites(c *Ctx, cl *ssa.Function) ([]localTableSite, bool) {
+	h := cl.Parent()
+	if h == nil {
+		return nil, false
+	}
+	var keys []int64
+	var mm *ssa.MakeMap
+	for _, b := range h.Blocks {
+		for _, in := range b.Instrs {
+			var v ssa.Value
+			switch x := in.(type) {
+			case *ssa.MakeClosure:
+				if x.Fn == ssa.Value(cl) {
+					v = x
+				}
+			}
+			if v == nil {
+				continue
+			}
+			if !entryOnly(v, &keys, &mm, 0) {
+				return nil, false
+			}
+		}
+	}
+	// a closure without free variables is used as a plain function value
+	for _, b := range h.Blocks {
+		for _, in := range b.Instrs {
+			for _, op := range in.Operands(nil) {
+				if *op == ssa.Value(cl) {
+					switch x := in.(type) {
+					case *ssa.MapUpdate:
+						k, isK := x.Key.(*ssa.Const)
+						m, isMM := x.Map.(*ssa.MakeMap)
+						if !isK || k.Value == nil || k.Value.Kind() != constant.Int || !isMM || (mm != nil && mm != m) {
+							return nil, false
+						}
+						kv, _ := constant.Int64Val(k.Value)
+						keys = append(keys, kv)
+						mm = m
+					case *ssa.ChangeType:
+						if !entryOnly(x, &keys, &mm, 0) {
+							return nil, false
+						}
+					case *ssa.MakeClosure:
+					default:
+						return nil, false
+					}
+				}
+			}
+		}
+	}
+	if mm == nil || len(keys) == 0 {
+		return nil, false
+	}
+	// the map only receives entries, is looked up here, and/or is returned
+	var out []localTableSite
+	collect := func(lk *ssa.Lookup) bool {
+		vals := []ssa.Value{lk}
+		for _, lr := range *lk.Referrers() {
+			if ex, isEx := lr.(*ssa.Extract); isEx && ex.Index == 0 {
+				vals = append(vals, ex)
+			}
+		}
+		for _, v := range vals {
+			for _, vr := range *v.Referrers() {
+				ci, isCall := vr.(ssa.CallInstruction)
+				if !isCall {
+					continue
+				}
+				if ci.Common().Value != v {
+					return false
+				}
+				for _, k := range keys {
+					out = append(out, localTableSite{ci, lk.Index, k})
+				}
+			}
+		}
+		return true
+	}
+	returned := false
+	for _, r := range *mm.Referrers() {
+		switch x := r.(type) {
+		case *ssa.MapUpdate, *ssa.DebugRef:
+		case *ssa.Return:
+			returned = true
+		case *ssa.Lookup:
+			if !collect(x) {
+				return nil, false
+			}
+		default:
+			return nil, false
+		}
+	}
+	if !returned {
+		return out, len(out) > 0
+	}
+	for _, fn := range c.P.SrcFuncs(h.Pkg.Pkg.Name()) {
+		for _, call := range callsIn(fn) {
+			sc := call.Common().StaticCallee()
+			if sc == nil || (sc != h && sc.Origin() != h) {
+				continue
+			}
+			tbl, isV := call.(ssa.Value)
+			if !isV {
+				return nil, false
+			}
+			for _, r := range *tbl.Referrers() {
+				lk, isLk := r.(*ssa.Lookup)
+				if !isLk {
+					if _, isDbg := r.(*ssa.DebugRef); isDbg {
+						continue
+					}
+					return nil, false // the table escapes
+				}
+				vals := []ssa.Value{lk}
+				for _, lr := range *lk.Referrers() {
+					if ex, isEx := lr.(*ssa.Extract); isEx && ex.Index == 0 {
+						vals = append(vals, ex)
+					}
+				}
+				for _, v := range vals {
+					for _, vr := range *v.Referrers() {
+						ci, isCall := vr.(ssa.CallInstruction)
+						if !isCall {
+							continue
+						}
+						if ci.Common().Value != v {
+							return nil, false
+						}
+						for _, k := range keys {
+							out = append(out, localTableSite{ci, lk.Index, k})
+						}
+					}
+				}
+			}
+		}
+	}
+	return out, len(out) > 0
+}
+
+// entryOnly: the function value v is used only as the value of map updates with constant integer keys into
+// one MakeMap (directly or after a conversion to a named function type).
+func entryOnly(v ssa.Value, keys *[]int64, mm **ssa.MakeMap, depth int) bool {
+	if depth > 2 {
+		return false
+	}
+	for _, r := range *v.Referrers() {
+		switch x := r.(type) {
+		case *ssa.DebugRef:
+		case *ssa.ChangeType:
+			if !entryOnly(x, keys, mm, depth+1) {
+				return false
+			}
+		case *ssa.MapUpdate:
+			k, isK := x.Key.(*ssa.Const)
+			m, isMM := x.Map.(*ssa.MakeMap)
+			if x.Value != v || !isK || k.Value == nil || k.Value.Kind() != constant.Int || !isMM || (*mm != nil && *mm != m) {
+				return false
+			}
+			kv, _ := constant.Int64Val(k.Value)
+			*keys = append(*keys, kv)
+			*mm = m
+		default:
+			return false
+		}
+	}
+	return true
 }
